@@ -1,11 +1,15 @@
 import RreModel.Proto
 import RreModel.C12.Spec
+import RreModel.C12.Spec2
 /-
 Driver for C12 (see harness/src/bin/c12.rs for the line formats).
   drv_c12 model   : case        ↦ observation predicted by the model
   drv_c12 oracle  : case | obs  ↦ `ok <tags>` / `fail <clause>` (the Spec predicates on the observations)
 Case kinds: TW, WM (T: `wmStepOk`; S/N: `wmfStepOk`), WS T (`wsOk`), WS S/N (`wssOk`, observation `hang` = the constructor did
 not return), AN none, S, T (`anStepOk`), AN E (session, `ansStepOk`).
+Round 4 case kinds (Spec2.lean): KW (`kwOk`: the stream operators of operators.rs), ST (`stOk`: StdDev value, any percentile), MS (`msOk`:
+manager statistics, moving average, aggregate across windows), TS (`tsOk`), AS (`asOk`), SA (`anomaliesOk` / `trendOk`), EV (`evOk`). The
+float operations of the model (`FOps` / `FCmp`) are instantiated with Lean's `Float` (`floatOps`, `floatCmp`, `pctIdxF`).
 `average` divides in IEEE double precision exactly as the Rust code does (`sum as f64 / n as f64`);
 floats cross the wire as bit patterns only.
 -/
@@ -103,9 +107,50 @@ inductive Case where
   | ans (timeout cap : Nat) (ops : List ANOp)             -- StreamAlphaNode with a session window
   | ag (es : List AEv)                                    -- First/Last/CountDistinct/CountBy/Percentile/StdDev of one window
   | xv (vs : List (Option XNum))                          -- min/max/sum of one window whose numeric fields range over all of f64
+  | kw (t : WType) (d cap : Nat) (keys : List Nat) (es : List Ev)   -- the stream operators of operators.rs
+  | st (ks : List Int) (es : List AEv)                    -- StdDev value and arbitrary percentiles of one window
+  | ms (t : WType) (d cap maxW k : Nat) (es : List Ev)    -- manager statistics + moving average
+  | ts (t : WType) (d start cap a b : Nat) (ops : List TWOp)  -- TimeWindow statistics
+  | ev (vs : List EVal)                                   -- get_numeric / get_string / get_boolean
+  | as (w : AWin) (cap : Nat) (ops : List ANOp)           -- StreamAlphaNode statistics
+  | sa (t2 : Int) (idx : List Nat) (es : List AEv)        -- StreamAnalytics::detect_anomalies / calculate_trend
+
+def parseEVal (s : String) : Option EVal :=
+  let rest := String.ofList (s.toList.drop 1)
+  if s = "m" then some .missing else if s = "u" then some .null
+  else if s = "b0" then some (.boolean false) else if s = "b1" then some (.boolean true)
+  else if s = "p" then some (.number .pinf) else if s = "q" then some (.number .ninf) else if s = "z" then some (.number .nan)
+  else if s = "M" then some (.number .hi) else if s = "L" then some (.number .lo)
+  else if s.startsWith "n" then rest.toInt?.map fun i => .number (.fin i)
+  else if s.startsWith "i" then rest.toInt?.map .integer
+  else if s.startsWith "t" then rest.toInt?.map .string
+  else none
 
 def parseCase (line : String) : Option Case :=
   match tokens line with
+  | ["KW", t, d, c, ks, es] => do
+    let keys ← parseNats? ks
+    let es ← parseEvs es
+    if keys.length ≠ es.length then none
+    else pure (.kw (← parseWType t) (← parseDur d) (← c.toNat?) keys es)
+  | ["ST", ks, es] => do
+    pure (.st (← (items ks).mapM (·.toInt?)) (← (enum (items es)).mapM fun (i, t) => parseAEv i t))
+  | ["MS", t, d, c, m, k, es] => do
+    pure (.ms (← parseWType t) (← parseDur d) (← c.toNat?) (← m.toNat?) (← k.toNat?) (← parseEvs es))
+  | ["TS", t, d, s, c, a, b, ops] => do
+    let ops ← (enum (items ops)).mapM fun (i, x) => parseTWOp i x
+    pure (.ts (← parseWType t) (← parseDur d) (← s.toNat?) (← c.toNat?) (← a.toNat?) (← b.toNat?) ops)
+  | ["EV", vs] => (items vs).mapM parseEVal |>.map .ev
+  | ["SA", t2, idx, es] => do
+    let idx ← parseNats? idx
+    let es ← (enum (items es)).mapM fun (i, t) => parseAEv i t
+    if idx.length ≠ es.length then none else pure (.sa (← t2.toInt?) idx es)
+  | ["AS", w, d, c, ops] => do
+    let d ← parseDur d
+    let w ← (if w = "-" then some AWin.none else if w = "S" then some (AWin.sliding d)
+             else if w = "T" then some (AWin.tumbling d) else none)
+    let ops ← (enum (items ops)).mapM fun (i, x) => parseANOp i x
+    pure (.as w (← c.toNat?) ops)
   | ["TW", t, d, s, c, ops] => do
     let t ← parseWType t
     let ops ← (enum (items ops)).mapM fun (i, x) => parseTWOp i x
@@ -165,9 +210,69 @@ def parseOX (s : String) : Option (Option XNum) :=
 operators::Min/Max with a NaN present: they compare with `partial_cmp().unwrap()`) -/
 def showXV (vs : List (Option XNum)) : String :=
   let mm := s!"{showOX (xMin vs)},{showOX (xMax vs)}"
-  let sum := if xSumComparable vs then showX (xSum vs) else "n"
+  let sum := showX (xSumFold vs)
   let o := if (vs.filterMap id).contains .nan then "n,n" else mm
   s!"{mm},{sum}/{mm}/{o}"
+
+-- ---- round 4: stream operators, StdDev / percentiles, statistics, field extraction
+/-- the f64 operations of the aggregates, in IEEE double arithmetic (what the Rust code computes with) -/
+def floatOps : FOps Float :=
+  { zero := 0.0, ofInt := Float.ofInt, ofNat := Float.ofNat, add := (· + ·), sub := (· - ·), mul := (· * ·), div := (· / ·),
+    sqrt := Float.sqrt }
+
+/-- `(percentile / 100.0 * (n - 1) as f64).round() as usize` for the percentile `k / 10` (the harness builds it as `k as f64 / 10.0`) -/
+def pctIdxF (k : Int) (n : Nat) : Nat := ((Float.ofInt k / 10.0) / 100.0 * Float.ofNat (n - 1)).round.toUSize.toNat
+
+/-- the key of an event: `keys[id]` as the harness's key selector reads it -/
+def keyFn (keys : List Nat) (e : Ev) : Nat := keyView (keys[e.id]?.getD 0)
+
+def showWin (w : WinO) : String := s!"{showIds w.events}~{showAgg w.agg}"
+def showRed (l : List Ev) : String := ".".intercalate (l.map fun e => toString e.id)
+def showORed (l : Option (List Ev)) : String := match l with | none => "-" | some l => showRed l
+def joinedS (v : List String) (sort : Bool) (sep : String) : String :=
+  let v := if sort then v.mergeSort (fun a b => !(decide (b < a))) else v
+  if v.isEmpty then "_" else sep.intercalate v
+def byKeyS {β : Type} (m : List (Nat × β)) (f : β → String) : String :=
+  joinedS (m.map fun p => s!"{p.1}={f p.2}") false ";"
+
+def showKW (t : WType) (o : KWObs) : String :=
+  let tum := decide (t = .tumbling)
+  let wf := if tum then showNats (sortedNats (o.wf.map (·.id))) else showIds o.wf
+  "!".intercalate
+    [ byKeyS o.ka (fun ws => joinedS (ws.map showWin) tum "+"),
+      byKeyS o.kr (fun rs => joinedS (rs.map showRed) tum "+"),
+      joinedS (o.wa.map showWin) tum "+",
+      joinedS (o.wr.map showRed) tum "+",
+      wf,
+      byKeyS o.ks (fun p => s!"{p.1}:{showWin p.2.1}:{showORed p.2.2}"),
+      showNats o.kk,
+      showIds o.kf,
+      byKeyS o.gs (fun p => s!"{p.1}:{showWin p.2.1}:{showON p.2.2.1}:{showON p.2.2.2}"),
+      s!"{o.ds.1}:{o.ds.2.1}:{showWin o.ds.2.2.1}:{showORed o.ds.2.2.2}" ]
+
+def showST (o : STObs) : String :=
+  s!"{showON o.std}/{if o.pcts.isEmpty then "-" else ",".intercalate (o.pcts.map showOI)}"
+
+def stModel (ks : List Int) (es : List AEv) : STObs :=
+  { std := (aggStdDev floatOps es).map fun x => x.toBits.toNat, pcts := ks.map fun k => aggPercentileAt (pctIdxF k) es }
+
+def showMS (o : MSObs) : String :=
+  s!"{showWindows o.windows}!{o.total}/{showON o.latest}/{o.stats.totalWindows},{o.stats.totalEvents},{showON o.stats.oldest},{showON o.stats.newest},{o.stats.avg}/{showON o.ma}/{o.acrossSum},{o.acrossCount}"
+
+def showTS (o : TSObs) : String :=
+  s!"{showIds o.events}/{showON o.latest}/{showIds o.inRange}/{o.durMs}/{o.afterClear}"
+
+def floatCmp : FCmp Float :=
+  { abs := Float.abs, gt := fun a b => decide (a > b), lt := fun a b => decide (a < b), hundred := 100.0, five := 5.0, negFive := -5.0 }
+
+def showTrend : Trend → String
+  | .increasing => "I" | .decreasing => "D" | .stable => "S"
+
+def showAS (o : ASObs) : String :=
+  s!"{showIds o.events}/{o.events.length}/{o.stats.count},{showON o.stats.oldest},{showON o.stats.newest},{showON o.stats.durMs}/{o.afterClear}"
+
+def showEV (v : EVal) : String :=
+  s!"{showOX v.numeric}:{showOI v.str}:{match v.bool with | none => "-" | some b => b01 b}"
 
 def modelLine (line : String) : String :=
   match parseCase line with
@@ -192,6 +297,25 @@ def modelLine (line : String) : String :=
       fun o => s!"{b01 o.ret}/{showIds o.events}")
   | some (.ag es) => showAgg2 (aggregate2 es)
   | some (.xv vs) => showXV vs
+  | some (.kw t d c keys es) =>
+    if t ≠ .tumbling ∧ d < 2 then "bad-case"
+    else match kwModel divBits (keyFn keys) t d c es with
+      | some o => showKW t o
+      | none => "panic"
+  | some (.st ks es) => showST (stModel ks es)
+  | some (.ms t d c m k es) =>
+    match msModel divBits (WM.new t d c m) k es with
+    | some o => showMS o
+    | none => "panic"
+  | some (.ts t d s c a b ops) => showTS (tsModel (TW.new t d s c) a b ops)
+  | some (.ev vs) => if vs.isEmpty then "-" else ",".intercalate (vs.map showEV)
+  | some (.sa t2 idx es) =>
+    let ws := windowsByIndex idx es
+    s!"{showNats (detectAnomalies floatOps floatCmp (Float.ofInt t2 / 2.0) ws)}/{showTrend (calcTrend floatOps floatCmp ws)}"
+  | some (.as w c ops) =>
+    match asModel { window := w, cap := c, events := [] } ops with
+    | some o => showAS o
+    | none => "panic"
   | none => "bad-case"
 
 -- ---------------------------------------------------------------- parsing observations (oracle mode)
@@ -255,6 +379,88 @@ def parseAgg2 (s : String) : Option Agg2 :=
     let sd ← (if sd = "+" then some true else if sd = "-" then some false else none)
     pure { first := ← optNat? f, last := ← optNat? l, distinct := ← d.toNat?, countBy := ← parseCountBy cb,
            pcts := ps, stdDefined := sd }
+  | _ => none
+
+-- ---- round 4 observations
+def parseWin (tbl : List Ev) (s : String) : Option WinO :=
+  match s.splitOn "~" with
+  | [ids, ag] => do pure { events := ← resolve tbl ids, agg := ← parseAgg ag }
+  | _ => none
+
+def parseRed (tbl : List Ev) (s : String) : Option (List Ev) :=
+  (s.splitOn ".").mapM fun x => do tbl[← x.toNat?]?
+
+def parseORed (tbl : List Ev) (s : String) : Option (Option (List Ev)) :=
+  if s = "-" then some none else (parseRed tbl s).map some
+
+def listOf {β : Type} (sep : String) (f : String → Option β) (s : String) : Option (List β) :=
+  if s = "_" then some [] else (s.splitOn sep).mapM f
+
+def keyed {β : Type} (f : String → Option β) (s : String) : Option (List (Nat × β)) :=
+  listOf ";" (fun kv => match kv.splitOn "=" with
+    | [k, v] => do pure (← k.toNat?, ← f v)
+    | _ => none) s
+
+def parseKW (tbl : List Ev) (s : String) : Option KWObs :=
+  match s.splitOn "!" with
+  | [ka, kr, wa, wr, wf, ks, kk, kf, gs, ds] => do
+    let ks ← keyed (fun v => match v.splitOn ":" with
+      | [c, w, r] => do pure (← c.toNat?, ← parseWin tbl w, ← parseORed tbl r)
+      | _ => none) ks
+    let gs ← keyed (fun v => match v.splitOn ":" with
+      | [c, w, f, l] => do pure (← c.toNat?, ← parseWin tbl w, ← optNat? f, ← optNat? l)
+      | _ => none) gs
+    let ds ← (match ds.splitOn ":" with
+      | [c, l, w, r] => do pure (← c.toNat?, ← l.toNat?, ← parseWin tbl w, ← parseORed tbl r)
+      | _ => none)
+    pure { ka := ← keyed (listOf "+" (parseWin tbl)) ka, kr := ← keyed (listOf "+" (parseRed tbl)) kr,
+           wa := ← listOf "+" (parseWin tbl) wa, wr := ← listOf "+" (parseRed tbl) wr, wf := ← resolve tbl wf,
+           ks := ks, kk := ← parseNats? kk, kf := ← resolve tbl kf, gs := gs, ds := ds }
+  | _ => none
+
+def parseST (s : String) : Option STObs :=
+  match s.splitOn "/" with
+  | [sd, ps] => do pure { std := ← optNat? sd, pcts := ← (if ps = "" then some [] else (ps.splitOn ",").mapM optInt?) }
+  | _ => none
+
+def parseMS (tbl : List Ev) (s : String) : Option MSObs :=
+  match s.splitOn "!" with
+  | [w, rest] =>
+    match rest.splitOn "/" with
+    | [tot, lat, st, ma, ac] =>
+      match st.splitOn ",", ac.splitOn "," with
+      | [tw, te, od, nw, av], [as, ac] => do
+        pure { windows := ← parseWindows tbl w, total := ← tot.toNat?, latest := ← optNat? lat,
+               stats := { totalWindows := ← tw.toNat?, totalEvents := ← te.toNat?, oldest := ← optNat? od, newest := ← optNat? nw,
+                          avg := ← av.toNat? },
+               ma := ← optNat? ma, acrossSum := ← as.toInt?, acrossCount := ← ac.toInt? }
+      | _, _ => none
+    | _ => none
+  | _ => none
+
+def parseTS (tbl : List Ev) (s : String) : Option TSObs :=
+  match s.splitOn "/" with
+  | [ids, lat, rng, du, ac] => do
+    pure { events := ← resolve tbl ids, latest := ← optNat? lat, inRange := ← resolve tbl rng, durMs := ← du.toNat?,
+           afterClear := ← ac.toNat? }
+  | _ => none
+
+def parseAS (tbl : List Ev) (s : String) : Option (ASObs × Nat) :=
+  match s.splitOn "/" with
+  | [ids, cnt, st, ac] =>
+    match st.splitOn "," with
+    | [c, od, nw, du] => do
+      pure ({ events := ← resolve tbl ids,
+              stats := { count := ← c.toNat?, oldest := ← optNat? od, newest := ← optNat? nw, durMs := ← optNat? du },
+              afterClear := ← ac.toNat? }, ← cnt.toNat?)
+    | _ => none
+  | _ => none
+
+def parseEVObs (s : String) : Option (Option XNum × Option Int × Option Bool) :=
+  match s.splitOn ":" with
+  | [n, st, b] => do
+    let b ← (if b = "-" then some none else (parseBool b).map some)
+    pure (← parseOX n, ← optInt? st, b)
   | _ => none
 
 -- ---------------------------------------------------------------- oracle
@@ -436,7 +642,9 @@ def oracleCase (c : Case) (obs : String) : String :=
           else if !(xMaxOk vs mx) then "fail xv-max"
           else if !(xMinOk vs amn && xMaxOk vs amx) then "fail xv-aggregator-min-max"
           else if !(match op with | some (omn, omx) => xMinOk vs omn && xMaxOk vs omx | none => hasNan) then "fail xv-operators-min-max"
-          else if !(if xSumComparable vs then tsum = showX (xSum vs) else tsum = "n") then "fail xv-sum"
+          -- the sum of exactly the window's numeric values: the closed form where the order of addition does not matter,
+          -- the fold in the order of the deque where it does (NaN, ±f64::MAX present)
+          else if !(tsum = showX (if xSumComparable vs then xSum vs else xSumFold vs)) then "fail xv-sum"
           else
             let v := vs.filterMap id
             joinSp (["ok", "XV", s!"len{vs.length}"]
@@ -448,6 +656,126 @@ def oracleCase (c : Case) (obs : String) : String :=
         | _, _, _ => "fail xv-unparsable-observation"
       | _ => "fail xv-unparsable-observation"
     | _ => "fail xv-unparsable-observation"
+  | .kw t d cap keys es =>
+    if t ≠ .tumbling ∧ d < 2 then "bad-input"
+    else if obs = "panic" then (if wsPanics t d es then "ok KW panic-zero-duration" else "fail kw-unexpected-panic")
+    else if wsPanics t d es then "fail kw-expected-panic"
+    else
+      match parseKW es obs with
+      | none => "fail kw-unparsable-observation"
+      | some o =>
+        let k := keyFn keys
+        if kwOk divBits k t d cap es o then
+          let kind := if t = .tumbling then "tumbling" else if t = .sliding then "sliding" else "session"
+          let multi := o.ka.any fun p => p.2.length ≥ 2
+          tagsOf "KW" (es.map (·.ts))
+            ([kind, s!"keys{o.kk.length}"] ++ (if multi then ["multi-window"] else [])
+             ++ (if o.ka.any (fun p => p.2.any fun w => w.events.length == cap) then ["at-cap"] else [])
+             ++ (if keys.contains 9 then ["non-string-key"] else [])
+             ++ (if o.kk.length ≥ 2 && multi && !(isLate (es.map (·.ts))) then ["nontrivial"] else []))
+        else
+          let keysE := o.kk
+          let why :=
+            if !(keysOk k es keysE && o.ka.map (·.1) == keysE && o.kr.map (·.1) == keysE && o.ks.map (·.1) == keysE && o.gs.map (·.1) == keysE)
+              then "keys"
+            else if !(o.ka.all fun p => winsOk t (expWindows t d cap (ofKey k p.1 es)) (p.2.map (·.events))) then "keyed-window-events"
+            else if !(o.ka.all (fun p => p.2.all fun w => aggOk divBits w.events w.agg) && o.wa.all (fun w => aggOk divBits w.events w.agg))
+              then "window-aggregate"
+            else if !(o.kr.all fun p => winsOk t ((expWindows t d cap (ofKey k p.1 es)).filter fun w => !w.isEmpty) p.2) then "keyed-window-reduce"
+            else if !(winsOk t (expWindows t d cap es) (o.wa.map (·.events))) then "window-events"
+            else if !(winsOk t ((expWindows t d cap es).filter fun w => !w.isEmpty) o.wr) then "window-reduce"
+            else if !(if t = .tumbling then sameMultiset (expWindows t d cap es).flatten o.wf else (expWindows t d cap es).flatten == o.wf)
+              then "window-flatten"
+            else if !(o.kf == keysE.flatMap (fun q => ofKey k q es)) then "keyed-flatten"
+            else if !(o.ks.all fun p => p.2.1 == (ofKey k p.1 es).length && p.2.2.1.events == ofKey k p.1 es
+                        && aggOk divBits p.2.2.1.events p.2.2.1.agg && p.2.2.2 == someIfNonempty (ofKey k p.1 es)) then "keyed-stream"
+            else if !(o.gs.all fun p => p.2.1 == (ofKey k p.1 es).length && p.2.2.1.events == ofKey k p.1 es
+                        && aggOk divBits p.2.2.1.events p.2.2.1.agg
+                        && p.2.2.2.1 == (ofKey k p.1 es).head?.map (·.id) && p.2.2.2.2 == (ofKey k p.1 es).getLast?.map (·.id))
+              then "grouped-stream"
+            else "data-stream"
+          s!"fail kw-{why}"
+  | .st ks es =>
+    match parseST obs with
+    | none => "fail st-unparsable-observation"
+    | some o =>
+      if stOk ks es o then
+        joinSp (["ok", "ST", s!"len{es.length}"]
+          ++ (if o.std.isSome then ["stddev-defined"] else [])
+          ++ (if o.std == some 0 then ["stddev-zero"] else [])
+          ++ (if o.pcts.any (·.isNone) && !(avals es).isEmpty then ["rank-beyond-end"] else [])
+          ++ (if ks.any (fun k => (pctRanks k (avals es).length).eraseDups.length ≥ 2) then ["rank-tie"] else [])
+          ++ (if (avals es).length ≥ 3 then ["nontrivial"] else []))
+      else if !(stdOk (avals es) o.std) then "fail st-stddev" else "fail st-percentile"
+  | .ms t d _ _ k es =>
+    let willPanic := decide (t = .tumbling) && d == 0 && !es.isEmpty
+    if obs = "panic" then (if willPanic then "ok MS panic-zero-duration" else "fail ms-unexpected-panic")
+    else if willPanic then "fail ms-expected-panic"
+    else
+      match parseMS es obs with
+      | none => "fail ms-unparsable-observation"
+      | some o =>
+        if !(o.windows.all fun w => aggOk divBits w.events w.agg) then "fail ms-aggregate"
+        else if msOk divBits k o then
+          tagsOf "MS" (es.map (·.ts))
+            ([s!"k{k}"] ++ (if o.windows.length ≥ 2 then ["multi-window"] else [])
+             ++ (if o.windows.length > k then ["older-windows-excluded"] else [])
+             ++ (if o.ma.isSome then ["moving-average-defined"] else [])
+             ++ (if o.windows.length ≥ 2 && o.ma.isSome then ["nontrivial"] else []))
+        else if o.ma != (let recent := ((o.windows.drop (o.windows.length - k)).map (·.events)).flatten
+                         if recent.isEmpty then none else some (divBits (vals recent).sum recent.length)) then "fail ms-moving-average"
+        else if !(o.acrossSum == (vals ((o.windows.map (·.events)).flatten)).sum
+                  && o.acrossCount == Int.ofNat ((o.windows.map (·.events)).flatten).length) then "fail ms-aggregate-across-windows"
+        else "fail ms-statistics"
+  | .ts _ d _ _ a b ops =>
+    let tbl := ops.map (·.ev)
+    match parseTS tbl obs with
+    | none => "fail ts-unparsable-observation"
+    | some o =>
+      if tsOk d a b o then
+        tagsOf "TS" (tbl.map (·.ts))
+          ((if o.inRange.length < o.events.length then ["range-excludes-some"] else [])
+           ++ (if !o.inRange.isEmpty then ["range-nonempty"] else []))
+      else if o.inRange != o.events.filter (fun x => decide (a ≤ x.ts) && decide (x.ts < b)) then "fail ts-events-in-range"
+      else if o.durMs != d || o.afterClear != 0 then "fail ts-duration-clear"
+      else "fail ts-latest-timestamp"
+  | .sa t2 idx es =>
+    let ws := windowsByIndex idx es
+    match obs.splitOn "/" with
+    | [an, tr] =>
+      match parseNats? an, (if tr = "I" then some Trend.increasing else if tr = "D" then some .decreasing else if tr = "S" then some .stable else none) with
+      | some an, some tr =>
+        if !(anomaliesOk t2 ws an) then "fail sa-anomalies"
+        else if !(trendOk ws tr) then "fail sa-trend"
+        else
+          joinSp (["ok", "SA", s!"windows{ws.length}", s!"trend-{showTrend tr}"]
+            ++ (if !an.isEmpty then ["anomalies"] else [])
+            ++ (if ws.length ≥ 3 && (avals (ws.take (ws.length - 1)).flatten).length ≥ 10 then ["baseline"] else [])
+            ++ (if (trendExact ws).isNone then ["trend-tie"] else [])
+            ++ (if ws.length ≥ 3 then ["nontrivial"] else []))
+      | _, _ => "fail sa-unparsable-observation"
+    | _ => "fail sa-unparsable-observation"
+  | .as w _ ops =>
+    let willPanic := (match w with | .tumbling 0 => true | _ => false) && ops.any (·.pass)
+    if obs = "panic" then (if willPanic then "ok AS panic-zero-duration" else "fail as-unexpected-panic")
+    else if willPanic then "fail as-expected-panic"
+    else
+      let tbl := ops.map (·.e)
+      match parseAS tbl obs with
+      | none => "fail as-unparsable-observation"
+      | some (o, cnt) =>
+        if asOk w o && cnt == o.events.length then
+          tagsOf "AS" (tbl.map (·.ts))
+            ((if o.events.length ≥ 2 then ["several-retained"] else [])
+             ++ (if o.stats.oldest.isSome && o.stats.oldest != (o.events.map (·.ts)).min? then ["oldest-not-least"] else []))
+        else "fail as-statistics"
+  | .ev vs =>
+    match (items obs).mapM parseEVObs with
+    | none => "fail ev-unparsable-observation"
+    | some os =>
+      if os.length == vs.length && (vs.zip os).all (fun p => evOk p.1 p.2.1 p.2.2.1 p.2.2.2) then
+        joinSp (["ok", "EV", s!"len{vs.length}"] ++ (if vs.length ≥ 2 then ["nontrivial"] else []))
+      else "fail ev-field-extraction"
   | .ans timeout cap ops =>
     let tbl := ops.map (·.e)
     match (steps obs).mapM (parseANObs tbl) with
